@@ -58,7 +58,9 @@ func (g *c03Gen) rbytes(n int) []byte {
 // key returns a 33-byte key: a real curve point (harness key) or junk with a
 // plausible / implausible prefix byte.
 func (g *c03Gen) key() []byte {
-	switch g.r.Intn(6) {
+	switch g.r.Intn(7) {
+	case 6: // non-canonical x >= P / off-curve x (see c03_keys.go)
+		return g.hostileKey()
 	case 0:
 		b := g.rbytes(33)
 		b[0] = 2 + byte(g.r.Intn(2))
